@@ -56,6 +56,11 @@ def build(c: dict[str, Any], dtype, via: str = "jnp"):
             return x / n
 
         return fn
+    if c["kind"] == "halfsum":
+        yv = np.array([[1, 2, 3], [3, 1, 2]], dtype)
+        if c["int"]:
+            return lambda x: jax.lax.div(x + jnp.asarray(yv), jnp.asarray(c["k"], dtype))     # truncating
+        return lambda x: (x + jnp.asarray(yv)) / c["k"]
     bins = np.array(c["bins"], dtype)
     if c["kind"] == "digitize":
         return lambda x: jnp.digitize(x, jnp.asarray(bins), right=bool(c["right"]))
@@ -76,13 +81,13 @@ def run_cases(cases: list[dict[str, Any]]) -> dict[str, Any]:
     out: dict[str, Any] = {"n": 0, "spec_vs_jax": [], "problems": [], "export_failed": []}
     for rec in cases:
         c = rec["c"]
-        for dtype in ((np.float32,) if c["kind"] == "lpnorm" or (c["kind"] == "reduce" and c["prod"] == "pow" and c["ex"][1] != 1) else (np.float32, np.int32)):
+        for dtype in ((np.int32,) if c["kind"] == "halfsum" and c["int"] else (np.float32,) if c["kind"] in ("lpnorm", "halfsum") or (c["kind"] == "reduce" and c["prod"] == "pow" and c["ex"][1] != 1) else (np.float32, np.int32)):
           for via in (("method", "jnp", "lax") if c["kind"] == "reduce" else ("method", "jnp") if c["kind"] == "lpnorm" else ("jnp",)):
               x = np.array(rec["x"], dtype)
-              if c["kind"] not in ("reduce", "lpnorm"):
+              if c["kind"] not in ("reduce", "lpnorm", "halfsum"):
                   x = x.reshape(-1)
               want = np.array(rec["want"], np.int64)
-              if c["kind"] == "lpnorm":      # exact rationals <<num, den>>
+              if c["kind"] in ("lpnorm", "halfsum"):      # exact rationals <<num, den>>
                   want = want[..., 0].astype(np.float64) / want[..., 1].astype(np.float64)
               fn = build(c, dtype, via)
               out["n"] += 1
@@ -97,9 +102,13 @@ def run_cases(cases: list[dict[str, Any]]) -> dict[str, Any]:
                   continue
               try:
                   m = jax2onnx.to_onnx(fn, [jax.ShapeDtypeStruct(x.shape, dtype)])
-                  _, got = U.run_model(m, {m.graph.input[0].name: x})
               except Exception as ex:  # noqa: BLE001
                   out["export_failed"].append({**tag, "error": f"{type(ex).__name__}: {str(ex)[:160]}"})
+                  continue
+              try:
+                  _, got = U.run_model(m, {m.graph.input[0].name: x})
+              except Exception as ex:  # noqa: BLE001
+                  out["problems"].append({**tag, "what": "invalid_model", "detail": f"the exported model does not load / run: {str(ex)[:200]}", "ops": sorted({n.op_type for n in m.graph.node})})
                   continue
               g = np.asarray(got[0])
               ops = sorted({n.op_type for n in m.graph.node})
